@@ -22,7 +22,9 @@ ANCHORS = ['bitcoinlib/transactions.py', 'bitcoinlib/scripts.py', 'bitcoinlib/en
 RULE = ('random transactions built and signed through the library API: 1-6 inputs (boundary runs with 253/300 inputs '
         'and 252/253/300 outputs) mixing P2PKH (compressed/uncompressed), P2PK, P2SH m-of-n, P2WPKH, P2WSH m-of-n, '
         'P2SH-P2WPKH, P2SH-P2WSH m-of-n; versions, locktimes, sequences, values up to 21e14, seven output kinds, 11 '
-        'networks; three signing flows (all at once / per index / one key per call). Non-trivial = distinct '
+        'networks; three signing flows (all at once / per index / one key per call); half of the cases are built a second '
+        'time (add_input or Input/Output objects), signed, changed through set_locktime_*/set_locktime_relative_*/shuffle/'
+        'merge_transaction/save+load/sign_and_update and signed again. Non-trivial = distinct '
         '(input-kind multiset, n_in, n_out, flow, network class) with >= 1 input at index > 0 or >= 1 non-P2PKH input')
 TRUSTED_BASE = ['vf/refs/tx.py (serializer, legacy + BIP143 sighash, spend verifier; self-checked on BIP143 vectors and a mainnet spend)',
                 'vf/refs/secp256k1.py', 'vf/refs/chain.py + golden/chainparams.json']
@@ -222,6 +224,9 @@ def run_case(case, col):
     if not big:
         case2 = dict(case, _first_scripts={k: i['script'] for k, i in enumerate(p['ins'])})
         resign_after_modification(t, spec, flow, rnd, col, case2)
+    # (5) other construction route + the library's in-place methods, signed again
+    if not big and case.get('ops'):
+        api_sequence(spec, flow, rnd, col, case)
     # (1b) direct digests for all hash types on every input (legacy: ALL only)
     for idx, inp in enumerate(spec['ins'][:8]):
         po = REG[(inp['txid'], inp['n'])]
@@ -283,6 +288,143 @@ def resign_after_modification(t, spec, flow, rnd, col, case):
                     break
 
 
+def gen_ops(rnd, spec, max_n=3):
+    """In-place API operations applied to a built (and usually signed) transaction; JSON-able for replay."""
+    ops = []
+    for _ in range(rnd.choice([1, 1, 2, 3])):
+        k = rnd.choice(['locktime_blocks', 'locktime_time', 'rel_blocks', 'rel_time', 'shuffle', 'sign_and_update', 'save_load', 'merge'])
+        if k == 'locktime_blocks':
+            ops.append([k, rnd.choice([1, 2, 499999999, rnd.randrange(1, 500000000)])])
+        elif k == 'locktime_time':
+            ops.append([k, rnd.choice([500000001, 0xfffffffe, rnd.randrange(500000001, 0xfffffffe)])])
+        elif k == 'rel_blocks':
+            ops.append([k, rnd.choice([1, 0xffff, rnd.randrange(1, 0x10000)]), rnd.randrange(len(spec['ins']))])
+        elif k == 'rel_time':
+            ops.append([k, rnd.choice([1, 512, 513, 33553920, rnd.randrange(512, 33553920)]), rnd.randrange(len(spec['ins']))])
+        elif k == 'merge':
+            if any(o[0] == 'merge' for o in ops):
+                continue
+            other = txgen.gen_spec(rnd, network=spec['network'], n_in=rnd.randint(1, 2), n_out=rnd.randint(1, 2), max_n=max_n)
+            have = {(i['txid'], i['n']) for i in spec['ins']}
+            if any((i['txid'], i['n']) in have for i in other['ins']):
+                continue
+            ops.append([k, other])
+        else:
+            ops.append([k])
+    return ops
+
+
+def api_sequence(spec, flow, rnd, col, case):
+    """(5) the same transaction built again (route: add_input or Input/Output objects), signed, then changed through the
+    library's own in-place methods (absolute / relative lock time setters, shuffle, merge_transaction, save + load,
+    sign_and_update) and signed again: every digest computed on the way is judged by the probe, the final raw bytes
+    must spend every prevout (inputs matched by outpoint), and the documented field effects must be there."""
+    import os
+    from vf import wallet_env
+    from bitcoinlib.transactions import Transaction
+    network = spec['network']
+    ops = case['ops']
+    label = '%s + %s' % (case.get('route', 'add_input'), ','.join(o[0] for o in ops))
+    by_op = {(i['txid'], i['n']): i for i in spec['ins']}
+    exp_seq = {(i['txid'], i['n']): i['seq'] for i in spec['ins']}
+    exp_outs = [(o['value'], txgen.out_script(o, network)) for o in spec['outs']]
+    exp_locktime = spec['locktime']
+    need_v2 = False
+    self_signed = False
+    try:
+        t = txgen.build(spec, private_in_inputs=(flow == 'all'), route=case.get('route', 'add_input'))
+        if case.get('sign_first', True):
+            sign_flow(t, spec, flow, rnd)
+        for op in ops:
+            wallet_env.reseed(case.get('rseed', 0) & 0xffff)
+            self_signed = False
+            if op[0] == 'locktime_blocks':
+                t.set_locktime_blocks(op[1])
+                exp_locktime = op[1]
+                exp_seq = {k: (0xfffffffe if v == 0xffffffff else v) for k, v in exp_seq.items()}
+                self_signed = True
+            elif op[0] == 'locktime_time':
+                t.set_locktime_time(op[1])
+                exp_locktime = op[1]
+                exp_seq = {k: (0xfffffffe if v == 0xffffffff else v) for k, v in exp_seq.items()}
+                self_signed = True
+            elif op[0] in ('rel_blocks', 'rel_time'):
+                tgt = t.inputs[op[2] % len(t.inputs)]
+                okey = (bytes(tgt.prev_txid).hex(), tgt.output_n_int)
+                if op[0] == 'rel_blocks':
+                    t.set_locktime_relative_blocks(op[1], op[2] % len(t.inputs))
+                    exp_seq[okey] = op[1]
+                else:
+                    t.set_locktime_relative_time(op[1], op[2] % len(t.inputs))
+                    exp_seq[okey] = max(op[1], 512) // 512 + (1 << 22)
+                need_v2 = True
+            elif op[0] == 'shuffle':
+                t.shuffle()
+            elif op[0] == 'sign_and_update':
+                t.sign_and_update()
+                self_signed = True
+            elif op[0] == 'save_load':
+                fn = os.path.join(os.environ['BCL_DATA_DIR'], 'c01_%d_%d.tx' % (os.getpid(), case.get('rseed', 0) & 0xffffff))
+                t.save(fn)
+                t = Transaction.load(filename=fn)
+                os.remove(fn)
+            elif op[0] == 'merge':
+                other = op[1]
+                register(other)
+                t2 = txgen.build(other, private_in_inputs=(flow == 'all'))
+                t.merge_transaction(t2)
+                for i in other['ins']:
+                    by_op[(i['txid'], i['n'])] = i
+                    exp_seq[(i['txid'], i['n'])] = i['seq']
+                exp_outs += [(o['value'], txgen.out_script(o, network)) for o in other['outs']]
+                self_signed = True
+        if not (flow == 'all' and self_signed):
+            # the caller signs again after changing the transaction (keys are not inside the inputs, or the last method
+            # does not promise to re-sign everything)
+            for k, li in enumerate(t.inputs):
+                inp = by_op[(bytes(li.prev_txid).hex(), li.output_n_int)]
+                t.sign(txgen.lib_keys(inp, network), index_n=k, replace_signatures=True)
+        raw = t.raw()
+        libv = t.verify()
+    except Exception as e:
+        col.violation(None, 'API sequence [%s] raised %r' % (label, e), {k: v for k, v in case.items() if not k.startswith('_')}, repr(e), 'signed transaction')
+        return
+    col.probe('api_sequence_check')
+    pub_case = {k: v for k, v in case.items() if not k.startswith('_')}
+    col.case('api/%s/%s/%s' % (case.get('route', 'add_input'), ops[-1][0], 'self-signed' if (flow == 'all' and self_signed) else 'signed-by-caller'),
+             nontrivial=(case.get('route'), tuple(o[0] for o in ops), flow, bool(case.get('sign_first', True)), len(t.inputs) > 1))
+    try:
+        p = rtx.parse(raw)
+    except Exception as e:
+        col.violation(None, 'independent parser cannot read raw() after [%s]: %r' % (label, e), pub_case, raw.hex()[:400], None)
+        return
+    got_ops = [(i['txid'][::-1].hex(), i['n']) for i in p['ins']]
+    if sorted(got_ops) != sorted(by_op):
+        col.violation(None, 'after [%s] the serialised inputs are not the requested outpoints' % label, pub_case, sorted(got_ops)[:4], sorted(by_op)[:4])
+        return
+    if sorted((o['value'], o['script']) for o in p['outs']) != sorted(exp_outs):
+        col.violation(None, 'after [%s] the serialised outputs are not the requested outputs' % label, pub_case,
+                      [(o['value'], o['script'].hex()) for o in p['outs']][:4], [(v, sc.hex()) for v, sc in exp_outs][:4])
+    if p['locktime'] != exp_locktime:
+        col.violation(None, 'after [%s] the serialised locktime is %d, expected %d' % (label, p['locktime'], exp_locktime), pub_case, p['locktime'], exp_locktime)
+    if need_v2 and p['version'] < 2:
+        col.violation(None, 'after [%s] a relative lock time is set but the version is %d' % (label, p['version']), pub_case, p['version'], '>= 2')
+    for idx, i in enumerate(p['ins']):
+        okey = got_ops[idx]
+        if i['seq'] != exp_seq[okey]:
+            col.violation(None, 'after [%s] input %d carries sequence %#x, expected %#x' % (label, idx, i['seq'], exp_seq[okey]), pub_case, i['seq'], exp_seq[okey])
+        po = REG[okey]
+        r = rtx.verify_input(p, idx, po['spk'], po['amount'])
+        if not r.ok:
+            col.violation(None, 'after [%s] input %d (%s) is not a valid spend of its prevout: %s (library verify()=%s, signed by %s)'
+                          % (label, idx, by_op[okey]['kind'], r.reason, libv, 'the method itself' if (flow == 'all' and self_signed) else 'an explicit sign() of every input'),
+                          pub_case, {'raw': raw.hex()[:1500]}, 'valid spend')
+            break
+    else:
+        if not libv:
+            col.violation(None, 'after [%s] every input is a valid spend but library verify() is False' % label, pub_case, libv, True)
+
+
 def replay(case, col):
     selfcheck(col)
     run_case(case, col)
@@ -314,6 +456,7 @@ def run_shard(spec, col):
     col.require('input_spend_check', 10)
     col.require('hashtype_probe', 10)
     col.require('resign_check', 5)
+    col.require('api_sequence_check', 5)
     rnd = random.Random('%s-%d-%d' % (ID, spec['seed'], spec['shard']))
     for k in range(spec['n_tx']):
         max_n = spec['max_n'] if rnd.random() < 0.15 else 4
@@ -321,7 +464,14 @@ def run_shard(spec, col):
         for o in s['outs']:
             if o['kind'] == 'nulldata':
                 o['value'] = 0
-        run_case({'spec': s, 'flow': FLOWS[k % 3], 'rseed': rnd.getrandbits(32)}, col)
+        case = {'spec': s, 'flow': FLOWS[k % 3], 'rseed': rnd.getrandbits(32)}
+        if rnd.random() < 0.5:
+            case['route'] = rnd.choice(['add_input', 'objects'])
+            if sum(i['value'] for i in s['ins']) <= sum(o['value'] for o in s['outs']):
+                case['route'] = 'add_input'   # the constructor refuses inputs < outputs (policy); add_input does not look
+            case['sign_first'] = rnd.random() < 0.8
+            case['ops'] = gen_ops(rnd, s)
+        run_case(case, col)
     if spec.get('big'):
         sh = spec['shard']
         variants = [(253, 2, ['p2pkh']), (2, 253, ['p2wpkh', 'p2pkh']), (1, 300, ['p2sh_p2wsh_ms']), (300, 252, ['p2wpkh', 'p2pkh']),
